@@ -111,11 +111,12 @@ def reproduce(ctx, binary, k, run, key, reps=40):
     return again >= 2
 
 
-def handle_batch(ctx, binary, k, runs, label, max_rounds):
-    """Validate a batch; every refused run is classified, reproduced, reported and dropped."""
+def handle_batch(ctx, binary, k, runs, label, max_rounds, seen, pending):
+    """Validate a batch; every refused run is classified, re-confirmed, reported and dropped.
+    seen: keys already confirmed (shared by all batches); pending: refused runs whose failure class
+    was not observed again (reported only if the class is confirmed elsewhere, else FLAKY)."""
     accepted = 0
     rounds = 0
-    seen = set()
     while runs:
         ok, i, j, r = validate(ctx, k, runs, label)
         ctx.add_tlc(r, "%s k=%d (%d runs)" % (label, k, len(runs)))
@@ -127,11 +128,13 @@ def handle_batch(ctx, binary, k, runs, label, max_rounds):
         key = classify(bad, j)
         what = "execution of two real MConnections is no behaviour of MConn.tla: event %d %s cannot be taken (scenario %s)" % (
             j, json.dumps(bad[j] if j < len(bad) else "end", sort_keys=True), bad[0]["scenario"])
+        case = {"k": k, "scenario": json.loads(bad[0]["scenario"]), "events": bad, "failed_at": j}
         if key not in seen:
-            if not reproduce(ctx, binary, k, bad, key):
-                raise vlib.Inconclusive("FLAKY", "%s was not observed again in 40 more executions of the scenario: %s" % (key, what[:400]))
-            seen.add(key)
-            ctx.violation(key, what, {"k": k, "scenario": json.loads(bad[0]["scenario"]), "events": bad, "failed_at": j})
+            if reproduce(ctx, binary, k, bad, key):
+                seen.add(key)
+                ctx.violation(key, what, case)
+            else:
+                pending.append((key, what, case))
         ctx.add("runs_refused", 1)
         runs = runs[i + 1:]
         rounds += 1
@@ -155,7 +158,7 @@ def run(ctx):
         ctx.cov.setdefault("traces_validated_against_impl", len(runs) if ok else i)
         return
     quick = ctx.tier == "quick"
-    lock = threading.Lock()
+    lock = threading.RLock()
     orig = ctx.scratch_dir
 
     def scratch_dir(name):
@@ -174,7 +177,7 @@ def run(ctx):
     mt = threading.Thread(target=model)
     mt.start()
     # (V) recorded executions; the two configurations are recorded and validated side by side
-    n = 120 if quick else 1500
+    n = 80 if quick else 1500
     vio, add, log = ctx.violation, ctx.add, ctx.log
 
     def locked(fn):
@@ -184,6 +187,7 @@ def run(ctx):
         return g
     ctx.violation, ctx.add, ctx.add_tlc, ctx.sample = locked(vio), locked(add), locked(ctx.add_tlc), locked(ctx.sample)
     res = {}
+    seen, pending = set(), []
 
     def batch(k):
         try:
@@ -196,8 +200,8 @@ def run(ctx):
                 k, s.get("runs", 0), s.get("lines", 0), s.get("messages_sent", 0), len(suspect)))
             if main:
                 ctx.sample({"scenario": json.loads(main[0][0]["scenario"]), "first_events": main[0][1:6]})
-            a = handle_batch(ctx, binary, k, main, "trace validation", 6)
-            b = handle_batch(ctx, binary, k, suspect, "trace validation (runs with a dropped empty message)", 2) if suspect else 0
+            a = handle_batch(ctx, binary, k, main, "trace validation", 6, seen, pending)
+            b = handle_batch(ctx, binary, k, suspect, "trace validation (runs with a dropped empty message)", 2, seen, pending) if suspect else 0
             log("k=%d: %d runs accepted by MConnTrace.tla" % (k, a + b))
             res[k] = a + b
         except Exception as e:
@@ -214,12 +218,17 @@ def run(ctx):
             raise res[k]
         total += res[k]
     ctx.add("traces_validated_against_impl", total)
+    flaky = [p for p in pending if p[0] not in seen]
+    ctx.add("runs_refused_not_reconfirmed", len(pending))
     mt.join()
     if isinstance(mres["r"], Exception):
         raise mres["r"]
     for cfg, r in mres["r"]:
         vlib.require_model_ok(r, cfg)
         ctx.add_tlc(r, "exhaustive " + cfg)
+    if flaky:
+        # refused executions whose failure class did not show again in 40 more executions of the scenario
+        raise vlib.Inconclusive("FLAKY", "%s was not observed again in 40 more executions of the scenario: %s" % (flaky[0][0], flaky[0][1][:400]))
     ctx.cov["exhaustive"] = True
     ctx.assumptions += [
         "in-memory transport: Close is a half-close (the peer reads what was written before, then EOF; the end of a stream is handed to the reader after both FlushStop calls returned in clean runs)",
